@@ -282,13 +282,33 @@ func cmdV3Env(args []string) {
 		rec.Add(v3EventBody(ver, &v, "E", o.e.Score(), o.e.Severity().String(), n%500 == 0), "dec=E vector="+s)
 	})
 
+	// (d) every (version, base vector) through the Environmental decoder with no optional metric
+	// written, with all of them spelled X, and with a seeded subset spelled X
+	var evalD int64
+	parallelFor(v3BaseCount()*2, workers, func(w, n int) {
+		rec, rng := recs[w], rngs[w]
+		var v v3Vec
+		v3SetFromIndex(&v, 0, v3NBase, n/2)
+		ver := v3Versions[n%2].Label
+		xm := xMask(&v, 8, 22)
+		for _, om := range []uint32{xm, 0, xm & uint32(rng.Int63()), xm &^ (1 << uint(8+rng.Intn(14)))} {
+			s := v3Join(ver, permuteMaybe(rng, v3Tokens(&v, 22, om)))
+			o, err := v3Decode('E', s)
+			atomic.AddInt64(&evalD, 1)
+			if err != nil {
+				rec.Add(v3ErrBody(ver, &v, "E", err), "dec=E vector="+s)
+				continue
+			}
+			rec.Add(v3EventBody(ver, &v, "E", o.e.Score(), o.e.Severity().String(), false), "dec=E vector="+s)
+		}
+	})
 	all := NewRecorder()
 	for _, r := range recs {
 		all.Merge(r)
 	}
 	s := all.Flush(flagOut, "v3env", flagChunks)
 	s.Extra = map[string]any{"eff_domain_x_temporal": evalA, "concrete_product_scanned": evalB, "concrete_product_full": *full,
-		"decoded": evalC, "table_composition_disagreements": mismatches}
+		"decoded": evalC, "all_not_defined_spellings_decoded": evalD, "table_composition_disagreements": mismatches}
 	printSummary(s)
 }
 
